@@ -68,6 +68,23 @@ inductive Op where
   | uncheckedMv (ov x : Nat)        -- inplace_vector: ov 1 `unchecked_push_back(move(t))`, 3 `unchecked_emplace_back(move(t))`
   deriving Repr, Inhabited
 
+/-- what the caller sees of an rvalue argument after the call: `some true` moved from, `some false` untouched;
+    `none` for a call that has no such argument -/
+def Out.moved? : Out → Option Bool
+  | .unitArg m => some m
+  | .itArg _ m => some m
+  | .ptrArg _ m => some m
+  | .refArg _ m => some m
+  | _ => none
+
+/-- the operations whose argument is an rvalue the caller looks at afterwards -/
+def takesRvalue : Op → Bool
+  | .pushMv .. => true
+  | .insertMv .. => true
+  | .tryPushMv .. => true
+  | .uncheckedMv .. => true
+  | _ => false
+
 structure Sys where
   ty : Ty
   cap : Nat
